@@ -8,6 +8,7 @@ import (
 	"net/http"
 	"strings"
 	"sync"
+	"sync/atomic"
 	"testing"
 	"time"
 
@@ -127,6 +128,10 @@ func TestC07(t *testing.T) {
 	}
 	close(ch2)
 	wg.Wait()
+	slowOkWithinTimeout(run) // alone: it measures a real 5.5 s answer
+	for i := 0; i < 3; i++ {
+		recoveryRacesProxyFailure(run, i)
+	}
 	run.Require("multi_endpoint_steps_compared", int64(mh*10))
 	run.Require("steps_compared", int64(histories*steps/2))
 	run.Require("real_probes_observed", int64(histories))
@@ -540,6 +545,119 @@ func oneHistory(run *rep.Run, rng *rand.Rand, h, nsteps int) {
 	run.Eval(I.String() + ":" + sb.String())
 	if h < 3 {
 		run.Sample(map[string]any{"check_interval": I.String(), "steps": trace})
+	}
+}
+
+// slowOkWithinTimeout: "slow ok" for a check_timeout the validation accepts (up to 30 s): the
+// backend answers its health check 200 after 5.5 s, check_timeout is 8 s. The latest check
+// reached it and got a 2xx answer, so the endpoint is healthy.
+func slowOkWithinTimeout(run *rep.Run) {
+	b := backend.NewStd("slow", []string{"m"}, nil)
+	defer b.Close()
+	w, err := world.Start(world.Spec{Engine: "sherpa", Balancer: "priority", Endpoints: []world.Endpoint{
+		{Name: "slow", URL: b.URL(), Type: "ollama", Priority: 100, CheckInterval: 30 * time.Second, CheckTimeout: 8 * time.Second}}})
+	if err != nil {
+		run.Inconclusive("world failed to start: " + err.Error())
+		return
+	}
+	defer w.Stop()
+	var answered atomic.Int64
+	b.Backend.SetHandler(func(r *backend.Record) *backend.Resp {
+		if r.Path == backend.StdHealthPath {
+			time.Sleep(5500 * time.Millisecond)
+			answered.Add(1)
+			return &backend.Resp{Status: 200, Body: []byte(`{"status":"ok"}`)}
+		}
+		return &backend.Resp{Status: 200, Body: backend.ModelsJSON([]string{"m"}), Headers: [][2]string{{"Content-Type", "application/json"}}}
+	})
+	w.Health().VerifShift(40 * time.Second)
+	t0 := time.Now()
+	w.ForceHealth()
+	el := time.Since(t0)
+	run.Eval("slow-ok/check_timeout=8s/answer-after=5.5s")
+	run.Count("slow_ok_cases", 1)
+	ep := w.EndpointByName("slow")
+	if ep == nil {
+		run.Inconclusive("endpoint not found")
+		return
+	}
+	if el > 7500*time.Millisecond {
+		run.Inconclusive("machine too loaded: the 5.5 s answer took " + el.String())
+		return
+	}
+	if ep.Status != domain.StatusHealthy {
+		run.Violation("C07/slow-ok/within-check-timeout/not-healthy", fmt.Sprintf("check_timeout 8 s, the backend answered its health check 200 after 5.5 s (the round took %s, %d answers sent), endpoint is %q", el.Round(time.Millisecond), answered.Load(), ep.Status),
+			map[string]any{"check_interval": "30s", "check_timeout": "8s", "answer_after": "5.5s", "status": string(ep.Status), "consecutive_failures": ep.ConsecutiveFailures})
+	}
+}
+
+// recoveryRacesProxyFailure: a proxy-detected failure lands while a health check of the same
+// endpoint is in flight. The check then succeeds: offline -> healthy is a recovery and needs its
+// model re-discovery like any other.
+func recoveryRacesProxyFailure(run *rep.Run, i int) {
+	b := backend.NewStd("r", []string{"m"}, func(r *backend.Record) *backend.Resp { return &backend.Resp{Fault: "reset_before_headers"} })
+	defer b.Close()
+	w, err := world.Start(world.Spec{Engine: []string{"sherpa", "olla"}[i%2], Balancer: "priority", Endpoints: []world.Endpoint{
+		{Name: "r", URL: b.URL(), Type: "ollama", Priority: 100, CheckInterval: 30 * time.Second, CheckTimeout: 10 * time.Second}}})
+	if err != nil {
+		run.Inconclusive("world failed to start: " + err.Error())
+		return
+	}
+	defer w.Stop()
+	if ep := w.EndpointByName("r"); ep == nil || ep.Status != domain.StatusHealthy {
+		run.Inconclusive("endpoint not healthy after boot")
+		return
+	}
+	hold := make(chan struct{})
+	var probing atomic.Int64
+	b.Backend.SetHandler(func(r *backend.Record) *backend.Resp {
+		switch r.Path {
+		case backend.StdHealthPath:
+			probing.Add(1)
+			<-hold
+			return &backend.Resp{Status: 200, Body: []byte(`{"status":"ok"}`)}
+		case backend.StdModelsPath:
+			b.ModelsHits.Add(1)
+			return &backend.Resp{Status: 200, Body: backend.ModelsJSON([]string{"m"}), Headers: [][2]string{{"Content-Type", "application/json"}}}
+		}
+		return &backend.Resp{Fault: "reset_before_headers"}
+	})
+	listings0 := b.ModelsHits.Load()
+	done := make(chan struct{})
+	go func() {
+		defer close(done)
+		w.Health().VerifShift(40 * time.Second)
+		w.ForceHealth()
+	}()
+	for k := 0; k < 500 && probing.Load() == 0; k++ {
+		time.Sleep(5 * time.Millisecond)
+	}
+	if probing.Load() == 0 {
+		close(hold)
+		<-done
+		run.Inconclusive("the forced health round never reached the backend")
+		return
+	}
+	// the proxy hits a connection reset and marks the endpoint
+	req, _ := http.NewRequest("POST", w.Base+"/olla/proxy/v1/chat/completions", strings.NewReader(`{"model":"m"}`))
+	req.Header.Set("Content-Type", "application/json")
+	client.Do(world.NewClient(false, 5*time.Second), req)
+	during := w.EndpointByName("r").Status
+	close(hold)
+	<-done
+	for k := 0; k < 300 && b.ModelsHits.Load() == listings0; k++ {
+		time.Sleep(10 * time.Millisecond)
+	}
+	after := w.EndpointByName("r").Status
+	run.Eval(fmt.Sprintf("recovery-races-proxy-failure/%d", i))
+	if during == domain.StatusHealthy {
+		run.Count("race_scenarios_where_proxy_failure_did_not_mark", 1)
+		return
+	}
+	run.Count("race_scenarios_judged", 1)
+	if after == domain.StatusHealthy && b.ModelsHits.Load() == listings0 {
+		run.Violation("C07/recovery/no-rediscovery/proxy-failure-during-check", fmt.Sprintf("the endpoint was %q (proxy-detected failure) when a health check that was already in flight succeeded and made it healthy; no model listing was fetched in the 3 s after", during),
+			map[string]any{"status_during_check": string(during), "status_after": string(after), "listings_before": listings0, "listings_after": b.ModelsHits.Load()})
 	}
 }
 
